@@ -262,7 +262,7 @@ def last_text_tag(src):
     return tags[-1] if tags else src[-1]["tag"]
 
 
-def drive_and_validate(cases, wdir, tag, chunks=None, batch=40000):
+def drive_and_validate(cases, wdir, tag, chunks=None, batch=36000):
     """-> (crash reasons by case id, sample observations, bad entries, totals, TLC results); batched so
     that the thorough tier does not hold every event in memory"""
     crashes, samples, bad, results = {}, {}, [], []
@@ -279,7 +279,7 @@ def drive_and_validate(cases, wdir, tag, chunks=None, batch=40000):
                     crashes[cid] = e.get("why", "?")
                 elif cid in want:
                     samples[cid] = e
-        b, t, r = vlib.validate_traces("Preproc_Trace", "Preproc_Trace.cfg", execs, wdir, "%s.%d" % (tag, b0), chunks=chunks, timeout_s=3000, xmx="4g -Xss256m")
+        b, t, r = vlib.validate_traces("Preproc_Trace", "Preproc_Trace.cfg", execs, wdir, "%s.%d" % (tag, b0), chunks=chunks or min(12, max(1, len(execs) // 200)), timeout_s=3000, xmx="2g -Xss128m")
         bad += b
         results += r
         totals["lines"] += t["lines"]
